@@ -341,8 +341,8 @@ def mutant_audit(prop):
             mp = os.path.join(sd, d, 'meta.json')
             if os.path.exists(mp) and json.load(open(mp)).get('property') == prop:
                 items.append(('seeded:' + d, os.path.join(sd, d, 'patch.diff'), 'git'))
-    out = []
-    for name, patch, kind in items:
+    def one(item):
+        name, patch, kind = item
         w = tempfile.mkdtemp(prefix='audit.')
         repo = os.path.join(w, 'repo')
         os.makedirs(repo)
@@ -357,8 +357,14 @@ def mutant_audit(prop):
             rec['rules'] = sorted(set(l.strip().split('|')[0] for l in o.splitlines() if l.startswith('    ')))[:5]
             for f in os.listdir(os.path.join(CACHE, 'facts')):
                 if tag + '.' in f:
-                    os.remove(os.path.join(CACHE, 'facts', f))
+                    try:
+                        os.remove(os.path.join(CACHE, 'facts', f))
+                    except OSError:
+                        pass
         shutil.rmtree(w, ignore_errors=True)
-        out.append(rec)
+        return rec
+    from concurrent.futures import ThreadPoolExecutor
+    with ThreadPoolExecutor(max_workers=int(os.environ.get('VERIF_AUDIT_JOBS', '6'))) as ex:
+        out = list(ex.map(one, items))
     return {'mutants': len(out), 'fired': sum(1 for r in out if r.get('fired')),
             'missed': [r['mutant'] for r in out if r.get('applied') and not r.get('fired')], 'results': out}
